@@ -33,6 +33,8 @@ type fault struct {
 	classes []string // acceptable error classes
 	// mayBeUnreached: the outcome may also equal the control outcome
 	mayBeUnreached bool
+	// anyOutcome: only the crash and atomicity monitors apply
+	anyOutcome bool
 }
 
 // plant mutates a copy-free case in place (the generator is re-run for the control) and returns
@@ -52,7 +54,20 @@ func plant(r *rng.R, cs *gen.Case) *fault {
 		}
 	}
 	for attempt := 0; attempt < 12; attempt++ {
-		switch r.Intn(16) {
+		switch r.Intn(17) {
+		case 16: // a second `remaining` clause in an allotment (grammatical; meaning not specified)
+			for _, s := range sends {
+				if d, ok := s.Dst.(*gen.DstAllot); ok && len(d.Items) >= 2 {
+					d.Items[r.Intn(len(d.Items))].A = &gen.AllotRemaining{}
+					d.Items[r.Intn(len(d.Items))].A = &gen.AllotRemaining{}
+					return &fault{kind: "duplicate-remaining", anyOutcome: true}
+				}
+				if a, ok := s.Src.(*gen.SrcAllot); ok && len(a.Items) >= 2 {
+					a.Items[0].A = &gen.AllotRemaining{}
+					a.Items[len(a.Items)-1].A = &gen.AllotRemaining{}
+					return &fault{kind: "duplicate-remaining", anyOutcome: true}
+				}
+			}
 		case 0: // hostile variable text
 			if len(plain) == 0 {
 				continue
@@ -286,6 +301,7 @@ func runC12(c *fw.Ctx) {
 		l.PWorld, l.PUnbounded, l.PBig = 35, 30, 10
 		l.PVarAcct, l.PVarAmt, l.PPortionVar = 40, 40, 40
 		l.MaxStmts = 3
+		l.PDstAllot, l.PSrcAllot = 30, 20
 	})
 	// ---- (a) planted faults ----
 	n := c.N(100000, 2500000)
@@ -330,6 +346,13 @@ func runC12(c *fw.Ctx) {
 			return
 		}
 		switch {
+		case f.anyOutcome:
+			if e.out.Err != nil && strings.HasPrefix(e.out.Class, "other:") {
+				c.Violation("untyped-error", fmt.Sprintf("fault %q: error of unknown class %s: %v", f.kind, e.out.Class, e.out.Err), input())
+				return
+			}
+			c.Count("crash_only_faults_checked", 1)
+			c.Distinct(f.kind + "|" + e.out.Class)
 		case e.out.Err != nil && in(f.classes, e.out.Class):
 			c.Count("planted_faults_checked", 1)
 			c.Count("fault_"+strings.SplitN(f.kind, ":", 2)[0], 1)
